@@ -54,4 +54,8 @@ func init() {
 		Old: "            network[target] := state;", New: "            network[target] := readState;", Expect: "broadcasts-committed-state"})
 	seed(Seed{Name: "merger-snapshot-gets-other-state", Prop: "C13", Rule: "CRDT-SNAPSHOT", File: "distsys/resources/crdt.go",
 		Old: "\t\t\t\t\tres.oldValue = res.oldValue.Merge(mergeVal)", New: "\t\t\t\t\tstale := mergeVal\n\t\t\t\t\tstale = res.oldValue\n\t\t\t\t\tres.oldValue = res.oldValue.Merge(stale)", Expect: "snapshot-merges-what-the-value-merges"})
+	seed(Seed{Name: "pbkvs-client-netlen-of-fresh-network", Prop: "C14", Rule: "NETLEN-WIRING", File: "systems/pbkvs/bootstrap/client.go",
+		Old: "\tnetworkLen := resources.NewMailboxesLength(network)\n\tconstants := makeConstants(c)\n\tfd := getFailureDetector(c)", New: "\tnetworkLen := resources.NewMailboxesLength(newNetwork(self, c))\n\tconstants := makeConstants(c)\n\tfd := getFailureDetector(c)", Expect: "getClientCtx"})
+	seed(Seed{Name: "raft-client-netlen-of-fresh-network", Prop: "C09", Rule: "NETLEN-WIRING", File: "systems/raftkvs/bootstrap/client.go",
+		Old: "\tnetLen := resources.NewMailboxesLength(net)", New: "\tnetLen := resources.NewMailboxesLength(newNetwork(self, c))", Expect: "newClientCtx"})
 }
